@@ -270,6 +270,6 @@ func TestC14(t *testing.T) {
 		}
 		return c
 	}
-	core.Rapid(r, "reuse", r.Pick(500, 15000), gen, wrap)
+	core.Rapid(r, "reuse", r.Pick(500, 40000), gen, wrap)
 	_ = big.NewInt
 }
